@@ -611,6 +611,16 @@ pub fn plan_c07(tier: &str, seed: u64) -> Plan {
                 muts.push(format!("flip {} {}", rng.below(total), rng.below(8)));
             }
         }
+        // the three structural bytes (number of traps, flavour flag, number of components): every bit and a few
+        // other values - a parser that repairs an over-announced count must not make the result open
+        for pos in [16, 16 + 1 + 2 * sz::PK, 16 + 1 + 2 * sz::PK + 1] {
+            for bit in 0..8 {
+                muts.push(format!("flip {pos} {bit}"));
+            }
+            for v in [0usize, 1, 2, 3, 4, 5, 6, 7, 8, 16, 64, 100, 127] {
+                muts.push(format!("setbyte {pos} {v}"));
+            }
+        }
         for cut in 0..total {
             if thorough || total < 400 || cut < 120 || cut % 23 == 0 || cut + 40 > total {
                 muts.push(format!("trunc {cut}"));
